@@ -198,4 +198,11 @@ def rb_binding_agreement(ctx: Ctx) -> None:
     binding_agreement(ctx)
 
 
-RULES = [r1_no_truncation, r2_bias_equals_length, r3_both_ends_checked, r4_run_address_bookkeeping, rb_binding_agreement]
+def rm_no_process_lifetime_results(ctx: Ctx) -> None:
+    """memoising decorators, module-level stores and mutable defaults on this property's mechanism (shared rule, caches.py)"""
+    from ..caches import state_rule
+
+    state_rule(ctx)
+
+
+RULES = [r1_no_truncation, r2_bias_equals_length, r3_both_ends_checked, r4_run_address_bookkeeping, rb_binding_agreement, rm_no_process_lifetime_results]
